@@ -155,7 +155,8 @@ where
     F: Float,
 {
     // Largest per-feature variance of all the samples summarised by `class_info`, pooled over
-    // the classes (law of total variance): sum_c w_c (sigma_c + theta_c^2) - (sum_c w_c theta_c)^2
+    // the classes (law of total variance in its centred form):
+    // sum_c w_c (sigma_c + (theta_c - mean)^2) with mean = sum_c w_c theta_c
     fn max_pooled_variance(class_info: &HashMap<L, GaussianClassInfo<F>>) -> Option<F>
     where
         L: Ord,
@@ -168,17 +169,21 @@ where
             .filter(|(_, x)| x.class_count > 0)
             .collect::<Vec<_>>();
         infos.sort_unstable_by(|a, b| a.0.cmp(b.0));
-        let mut infos = infos.into_iter().map(|(_, x)| x);
-        let first = infos.next()?;
+        let infos = infos.into_iter().map(|(_, x)| x).collect::<Vec<_>>();
+        let first = *infos.first()?;
         let weight = |info: &GaussianClassInfo<F>| F::cast(info.class_count) / F::cast(total);
-        let mut mean = &first.theta * weight(first);
-        let mut second_moment = (&first.sigma + &first.theta.mapv(|x| x.powi(2))) * weight(first);
-        for info in infos {
-            mean = mean + &info.theta * weight(info);
-            second_moment =
-                second_moment + (&info.sigma + &info.theta.mapv(|x| x.powi(2))) * weight(info);
+        // The pooled mean is taken relative to the mean of the first class and the second moments
+        // are centred: subtracting raw second moments (`E[x^2] - E[x]^2`) cancels catastrophically
+        // for features with a large common offset (e.g. timestamps)
+        let mut mean_shift = Array1::<F>::zeros(first.theta.len());
+        for info in infos.iter() {
+            mean_shift = mean_shift + (&info.theta - &first.theta) * weight(info);
         }
-        let variance = second_moment - mean.mapv(|x| x.powi(2));
+        let mut variance = Array1::<F>::zeros(first.theta.len());
+        for info in infos.iter() {
+            let deviation = &info.theta - &first.theta - &mean_shift;
+            variance = variance + (&info.sigma + deviation.mapv(|x| x.powi(2))) * weight(info);
+        }
         variance.max().ok().copied()
     }
 
